@@ -22,7 +22,7 @@ STUB = ["user code (generated)", "stdout (sink)"]
 ASSUMPTIONS = ["aggregates over random-size lists (sum/product/unique/in-list) are gated out of the "
                "generator: known finding KF-C04-RANDSZ-AGG (replayed by every run of the check)"]
 REQUIRED_NONZERO = {"*": ["judged_calls", "edits", "randsz_calls", "foreach_calls", "agg_calls",
-                          "len_checks"]}
+                          "len_checks", "nested_appends"]}
 
 
 def budget(tier):
@@ -50,10 +50,29 @@ def generate(seed, tier):
     own = progs.fields_with_paths(P.cls("K0"))[0]
     go = progs.Gen(orng, cfg)
     edefs = {e["name"]: e for e in prog["enums"]}
+    rows = [f for f in P.fields("K0") if f["n"] == "rows"]
+    fixed_idx = set()
+
+    def scan(o):
+        if isinstance(o, dict):
+            pth = o.get("p")
+            if isinstance(pth, list) and len(pth) >= 2 and isinstance(pth[0], str) and isinstance(pth[1], int):
+                fixed_idx.add(pth[0])
+            for v in o.values():
+                scan(v)
+        elif isinstance(o, list):
+            for v in o:
+                scan(v)
+    scan(prog["classes"])
     for _ in range(orng.randint(6, 20 if tier == "quick" else 48)):
         p = orng.randrange(n_parties)
         r = orng.random()
-        if r < 0.45:
+        if rows and r < 0.12:
+            # make the inner lists ragged
+            i = orng.randrange(rows[0]["sz"])
+            ops.append({"op": "lappend", "p": p, "path": ["rows", i, "v"], "v": orng.randint(0, 3),
+                        "nested": True})
+        elif r < 0.45:
             ops.append({"op": "randomize", "p": p})
         elif r < 0.6 and own:
             ops.append({"op": "rw", "p": p, "inline": progs.strip(go.stmts(own, 1, lo=1, hi=1))})
@@ -65,6 +84,10 @@ def generate(seed, tier):
                     return orng.choice(edefs[lf["en"]]["items"])[1]
                 return go.in_range_value({"k": "s", "w": lf["w"], "s": lf["s"]})
             k = orng.choice(["lappend", "lappend", "lextend", "lclear", "lassign", "setitem"])
+            if lf["n"] in fixed_idx and k in ("lclear", "lassign"):
+                # a statement names an element of this list by a fixed index: never shrink it
+                # (the library rejects a reference to a missing element with an explicit error)
+                k = "lappend"
             if k == "lappend":
                 ops.append({"op": "lappend", "p": p, "path": [lf["n"]], "v": val()})
             elif k == "lextend":
@@ -160,6 +183,11 @@ def execute(rec):
             continue
         kind = op["op"]
         p = op.get("p")
+        if kind == "lappend" and op.get("nested"):
+            out = w.apply(op)
+            stats["nested_appends"] = stats.get("nested_appends", 0) + 1
+            obs.append((oi, "nested_append", out["st"]))
+            continue
         if kind in ("lappend", "lextend", "lclear", "lassign", "setitem"):
             lf = P.field(top, op["path"][0])
             before = exposed(p, lf)
